@@ -318,12 +318,18 @@ def judge(scratch, by_sid, tag):
                           "honoured": honoured, "drift": drift}
 
 
+# clauses that speak about what justifies an outcome *at the moment of the call*: inside a concurrent section the justification may
+# be an operation that overlaps the call (a saturated pick that read the pool size, lost the race for the last slot and is told to
+# wait while the connection created by the winner is already READY), so no order of atomic operations reproduces it
+SEQUENTIAL_ONLY = {"C03_w"}
+
+
 def for_property(bad, pid):
     """A section that no order explains counts against a property only when every order violates one of that property's clauses;
     the clauses reported are those of the order with the fewest of them."""
     out = []
     for b in bad:
-        per = [[c for c in ids if c.split("_")[0] == pid] for ids in b["per_order"]]
+        per = [[c for c in ids if c.split("_")[0] == pid and c not in SEQUENTIAL_ONLY] for ids in b["per_order"]]
         if all(per):
             out.append(dict(b, ids=min(per, key=len)))
     return out
